@@ -79,6 +79,11 @@ def _steps(repo: Repo, m: Module, fn: ast.FunctionDef, depth: int = 0) -> List[T
                 callee = m.find(name)
                 if not isinstance(callee, ast.FunctionDef):
                     raise Unsummarisable(f"unknown callee {name}")
+                d = _direct_sign_form(callee)  # a callee written as a pure sign update is a Pauli (BadSignUpdate propagates)
+                if d is not None:
+                    _DIRECT[name] = ("1", d)
+                    out.append((name, idx))
+                    continue
                 for pn, pi in _steps(repo, m, callee, depth + 1):
                     out.append((pn, tuple(idx[i] for i in pi)))
                 continue
@@ -86,6 +91,13 @@ def _steps(repo: Repo, m: Module, fn: ast.FunctionDef, depth: int = 0) -> List[T
 
     do_body(fn.body)
     return out
+
+
+_DIRECT: Dict[str, Tuple[str, object]] = {}
+
+
+def _prim(name: str):
+    return PRIMITIVES[name] if name in PRIMITIVES else _DIRECT[name]
 
 
 class BadSignUpdate(Exception):
@@ -190,12 +202,12 @@ def summarise(repo: Repo, name: str):
     if nq == 1:
         u = cl.I2
         for pn, idx in steps:
-            u = cl.mm(PRIMITIVES[pn][1], u)
+            u = cl.mm(_prim(pn)[1], u)
         return "1", u
     if nq == 2:
         u = cl.eye(4)
         for pn, idx in steps:
-            kind, g = PRIMITIVES[pn]
+            kind, g = _prim(pn)
             if kind == "1":
                 full = cl.on_first(g) if idx[0] == 0 else cl.on_second(g)
             else:
